@@ -12,10 +12,10 @@ def c15_static(src):
                             ('no-const_cast', r'\bconst_cast\b', 'const_cast could remove the constness of the parser object'),
                             ('no-thread_local', r'\bthread_local\b', 'hidden per-thread state')):
         hits = _scan(src, pat)
-        out.append(dict(id='C15/' + ident, ok=not hits, desc='header contains no `%s` (%s)' % (ident[3:], why), detail=hits[:5], line=hits[0][0] if hits else None))
+        out.append(dict(kind='semantic', id='C15/' + ident, ok=not hits, desc='header contains no `%s` (%s)' % (ident[3:], why), detail=hits[:5], line=hits[0][0] if hits else None))
     # function-local / namespace-scope non-const statics
     hits = [(l, t) for l, t in _scan(src, r'(?m)^[ \t]*static\s+(?!const\b|constexpr\b|_assert|const\s)[^;(]*;')]
-    out.append(dict(id='C15/no-mutable-static', ok=not hits, desc='no static object that is not const/constexpr', detail=hits[:5], line=hits[0][0] if hits else None))
+    out.append(dict(kind='semantic', id='C15/no-mutable-static', ok=not hits, desc='no static object that is not const/constexpr', detail=hits[:5], line=hits[0][0] if hits else None))
     hits = _scan(src, r'(?m)^[ \t]*(?:inline\s+)?(?!constexpr|const|static|using|typedef|template|return|namespace|struct|class|enum|friend|public|private|protected|#|\}|\{|//)[A-Za-z_][\w:<>]*\s+\w+\s*(=[^;]*)?;\s*$')
     # parse entry points are const members
     for name in ('parse', 'context_parse', 'write_diag_str'):
@@ -53,3 +53,31 @@ def c16_static(src):
         if not any(re.search(p, ctx) for p in allowed):
             bad.append((src.line_of(m.start()), ctx.strip().replace('\n', ' ')[:100]))
     return [dict(id='C16/verbose-guards', ok=not bad, desc='every use of `verbose` is an `if (..verbose)` guard, the copy into match_options, or a setter/declaration', detail=bad[:5], line=bad[0][0] if bad else None)]
+
+
+def buffers_static(src):
+    """C04/C07: the three buffer adaptors compute the same slice and cstring_buffer's iterator is a plain pointer:
+    each one-line body must still be the pointer operation R7 replaces it by (a pattern fact, not a proof)."""
+    pats = [
+        ('cstring-get_view', r'constexpr std::string_view get_view\(iterator start, iterator end\) const \{ return std::string_view\(start\.ptr, end\.ptr - start\.ptr\); \}'),
+        ('string-get_view', r'class string_buffer.*?std::string_view get_view\(iterator start, iterator end\) const\s*\{\s*return std::string_view\(str\.data\(\) \+ \(start - str\.begin\(\)\), end - start\);\s*\}'),
+        ('string_view-get_view', r'class string_view_buffer.*?std::string_view get_view\(iterator start, iterator end\) const\s*\{\s*return std::string_view\(str\.data\(\) \+ \(start - str\.begin\(\)\), end - start\);\s*\}'),
+        ('cstring-begin', r'constexpr iterator begin\(\) const \{ return iterator\{ data \}; \}'),
+        ('cstring-end', r'constexpr iterator end\(\) const \{ return iterator\{ data \+ N - 1 \}; \}'),
+        ('it-deref', r'constexpr char operator \*\(\) const \{ return \*ptr; \}'),
+        ('it-preinc', r'constexpr iterator& operator \+\+\(\) \{ \+\+ptr; return \*this; \}'),
+        ('it-eq', r'constexpr bool operator == \(const iterator& other\) const \{ return ptr == other\.ptr; \}'),
+        ('it-ne', r'constexpr bool operator != \(const iterator& other\) const \{ return ptr != other\.ptr; \}'),
+        ('it-plus', r'constexpr iterator operator \+ \(size_t len\) \{ iterator i\(\*this\); i\.ptr \+= len; return i; \}'),
+        ('it-pluseq', r'constexpr iterator& operator \+= \(size_t len\) \{ ptr \+= len; return \*this; \}'),
+        ('string-begin-end', r'class string_buffer.*?auto begin\(\) const \{ return str\.cbegin\(\); \}\s*auto end\(\) const \{ return str\.cend\(\); \}'),
+        ('string_view-begin-end', r'class string_view_buffer.*?auto begin\(\) const \{ return str\.cbegin\(\); \}\s*auto end\(\) const \{ return str\.cend\(\); \}'),
+        ('copy_array', r'constexpr void copy_array\(T \*a1, const T\* a2, std::index_sequence<I\.\.\.>\)\s*\{\s*\(void\(a1\[I\] = a2\[I\]\), \.\.\.\);\s*\}'),
+        ('cstring-ctor', r'constexpr cstring_buffer\(const char\(&source\)\[N1\]\)\s*\{\s*utils::copy_array\(data, source, std::make_index_sequence<N1>\{\}\);\s*\}'),
+    ]
+    out = []
+    for ident, pat in pats:
+        n = len(re.findall(pat, src.text, re.S))
+        out.append(dict(id='buffers/' + ident, ok=(n == 1), desc='buffer adaptor one-liner `%s` is the pointer operation the lowering (R7) substitutes for it' % ident,
+                        detail='matches=%d' % n, line=None))
+    return out
